@@ -441,7 +441,44 @@ def r5_serial_parallel_agree(ctx, rep):
            f"every entity: with parallel > 0 the other graph of a filtered entity is not written", py.nloc(br[0]))
 
 
+def r6_naming_order(ctx, rep):
+    """NameSelector hands out the ~N suffix on first request. Comparison methods that read `.ident` are
+    invoked by sorted()/toposort over *sets* of entities (identity hashes, different in every process), so
+    unless every top-level entity's name was requested before, in list order, same-named entities swap
+    their page names between runs."""
+    py = ctx.py
+    readers = []
+    for cname, ci in py.classes.items():
+        if ci.module != "sourceform":
+            continue
+        for m in ("__lt__", "__gt__", "__le__", "__ge__", "__eq__", "__hash__"):
+            fn = ci.methods.get(m)
+            if fn is not None and any(isinstance(a, ast.Attribute) and a.attr == "ident" for a in ast.walk(fn)):
+                readers.append(f"{cname}.{m}")
+    fn = py.func("Project.correlate")
+    first_sort = min([c.lineno for c in py.walk_calls(fn) if call_name(c).endswith("toposort_flatten")
+                      or call_name(c) == "sorted"] or [10 ** 9])
+    pre = None
+    for st in fn.body:
+        if isinstance(st, ast.For) and st.lineno < first_sort and any(
+                isinstance(a, ast.Attribute) and a.attr == "ident" for a in ast.walk(st)):
+            lists = re.findall(r"self\.(\w+)", ast.unparse(st.iter))
+            if {"modules", "submodules", "procedures", "programs"} <= set(lists):
+                pre = st
+    if not readers:
+        rep.ob("entity comparisons do not consult the page-name registry", True, "no comparison method reads .ident", py.nloc(fn))
+        return
+    ok = pre is not None
+    rep.ob("page names are requested in list order before any sorting of entity sets", ok,
+           f"{readers} read .ident, and Project.correlate requests the names of all top-level entities in list order first"
+           if ok else
+           f"{readers} read `.ident` (first request fixes the ~N suffix) and are first invoked from "
+           f"toposort_flatten/sorted over sets of entities hashed by identity: modules of the same name in different "
+           f"files swap `name` / `name~2` between runs even with PYTHONHASHSEED fixed", py.nloc(pre) if pre is not None else py.nloc(fn))
+
+
 RULES = [
+    RuleSpec("C12.R6", r6_naming_order, "page-name numbering does not depend on set iteration order", floor=1),
     RuleSpec("C12.R5", r5_serial_parallel_agree, "serial and parallel graph output agree", floor=6),
     RuleSpec("C12.R4", r4_graph_emission, "graph node/edge emission iterates sorted views (shared with C13.R5)", floor=18),
     RuleSpec("C12.R1", r1_unordered_iteration, "no unordered source reaches an order-sensitive sink unsorted", floor=10),
